@@ -322,6 +322,9 @@ class Assembler:
                 attrs = '\n'.join(a for a in re.findall(r'#\[[^\]]*\]', it.attrs) if a.startswith('#[derive') or a.startswith('#[repr'))
                 text = (attrs + '\n' if attrs else '') + it.proper
                 text = transform_common(text, counts)
+                if opts.get('dropderive'):
+                    keep = tuple(x for x in KEEP_DERIVES if x not in opts['dropderive'])
+                    text = _cut_derives(text, counts, keep)
                 if it.kind in ('struct', 'enum', 'type') and not re.match(r'\s*(#\[[^\]]*\]\s*)*pub\b', text):
                     text = re.sub(r'(?m)^(\s*)(struct|enum|type)\b', r'\1pub \2', text, count=1)
                     counts['R11'] = counts.get('R11', 0) + 1
@@ -381,8 +384,25 @@ class Assembler:
             if a not in body:
                 raise AnchorError('body substitution anchor lost in %s: %r' % (qual, a))
             body = body.replace(a, b); counts['Rsub'] = counts.get('Rsub', 0) + 1
+        for callee in opts.get('inline', []):
+            # R4b: a call `self.<callee>()` is replaced by the callee's one-expression body taken from /repo
+            # (needed where R4 widened the callee's receiver to &mut self and the call sits under a live guard)
+            csrc, cit = find_fn(repo_file, container if ' for ' not in container else 'impl ' + container.split(' for ')[1], callee)
+            cb = transform_common(cit.body, {}, is_async).strip()
+            inner = cb[1:-1].strip()
+            if ';' in rsparse.mask(inner) or '\n' in inner.strip():
+                raise AnchorError('callee %s is not a single expression any more; cannot inline into %s' % (callee, qual))
+            call = 'self.%s()' % callee
+            if call not in body:
+                raise AnchorError('inline anchor lost in %s: %s' % (qual, call))
+            body = body.replace(call, inner); counts['R4b'] = counts.get('R4b', 0) + 1
         if 'ret' in opts:
             sig = add_ret_binder(sig, opts['ret'])
+        if 'assumed' in opts:
+            # body NOT verified: only the signature comes from /repo; the contract is an assumption
+            body = '{ unimplemented!() }'
+            opts['attr'] = list(opts['attr']) + ['#[verifier::external_body]']
+            self.assumed = getattr(self, 'assumed', []) + [{'fn': qual, 'checked_by': opts['assumed']}]
         # split annotations
         contract, loops, closures, proofs = [], {}, {}, []
         cur = contract
@@ -483,6 +503,8 @@ class Assembler:
                         a, b = p[4:].split('=>'); opts['sub'].append((a, b))
                     elif p.startswith('safety='):
                         opts['safety'] = p[7:].split(',')
+                    elif p.startswith('dropderive='):
+                        opts['dropderive'] = p[11:].split(',')
                 self.do_items(parts[0], parts[1].split(','), opts)
             elif s.startswith('//@fn'):
                 parts = [p.strip() for p in s[len('//@fn'):].split('|')]
@@ -492,6 +514,9 @@ class Assembler:
                     if p.startswith('ret='): opts['ret'] = p[4:]
                     elif p == 'mutself': opts['mutself'] = True
                     elif p == 'async': opts['async'] = True
+                    elif p.startswith('inline='): opts.setdefault('inline', []).append(p[7:])
+                    elif p.startswith('assumed'): opts['assumed'] = p.partition('=')[2] or 'unchecked'
+                    elif p.startswith('noclone'): pass
                     elif p.startswith('safety='): opts['safety'] = p[7:].split(',')
                     elif p.startswith('attr='): opts['attr'].append(p[5:])
                     elif p.startswith('sigsub='):
@@ -505,6 +530,30 @@ class Assembler:
                 while i < len(lines) and not lines[i].strip().startswith('//@endfn'):
                     ann.append((i + 1, lines[i])); i += 1
                 self.do_fn(repo_file, container, name, opts, ann, i + 1)
+            elif s.startswith('//@fields'):
+                # //@fields <repo file> | struct Name | a,b,c  : the prelude declares this struct; its field names must match /repo (R10)
+                parts = [p.strip() for p in s[len('//@fields'):].split('|')]
+                src, items = load(parts[0])
+                kind, _, name = parts[1].partition(' ')
+                cand = [it for it in items if it.kind == kind and it.name == name]
+                if len(cand) != 1:
+                    raise AnchorError('declaration not found: %s in %s' % (parts[1], parts[0]))
+                inner = rsparse.mask(cand[0].body)[1:-1]
+                # top-level fields: split on commas at depth 0
+                names = []
+                depth = 0; cur = ''
+                for ch in inner:
+                    if ch in '([{<': depth += 1
+                    elif ch in ')]}>': depth -= 1
+                    if ch == ',' and depth == 0:
+                        names.append(cur); cur = ''
+                    else: cur += ch
+                names.append(cur)
+                names = [re.sub(r'^\s*(pub(\([^)]*\))?\s+)?', '', n.strip()).split(':')[0].strip() for n in names if ':' in n]
+                want = [x.strip() for x in parts[2].split(',') if x.strip()]
+                if names != want:
+                    raise AnchorError('fields of %s changed: repo has %s, prelude declares %s' % (parts[1], names, want))
+                self.emit('// R10: declaration of %s written in the prelude; field names checked against %s: %s' % (parts[1], parts[0], ','.join(want)), 'template:%d' % (i + 1))
             elif s.startswith('//@closed'):
                 # //@closed <repo file> | <container> | allow=a,b,c : every fn of the container must be under
                 # contract in this unit or listed in allow (else: undecided)
@@ -537,7 +586,7 @@ def assemble(unit, outdir):
     os.makedirs(outdir, exist_ok=True)
     out_rs = os.path.join(outdir, unit + '.rs')
     open(out_rs, 'w').write('\n'.join(a.out) + '\n')
-    meta = {'unit': unit, 'functions': a.functions, 'items': a.items_used, 'rules': a.rule_counts,
+    meta = {'unit': unit, 'assumed_fns': getattr(a, 'assumed', []), 'functions': a.functions, 'items': a.items_used, 'rules': a.rule_counts,
             'obligations': a.obligations, 'fn_ranges': a.fn_ranges,
             'line_ob': {str(k + 1): m['ob'] for k, m in enumerate(a.map) if m['ob']},
             'line_origin': [m['origin'] for m in a.map]}
